@@ -25,6 +25,7 @@ def run(ctx):
     # the password-to-key derivation hashes the whole password (shared with C12): a truncated or mis-ordered S2K input lets other passwords unlock
     from rules import c12
     c12.s2k(ctx, P)
+    c12.secret_key_aead(ctx, P)
 
 
 def unlock(ctx, P):
